@@ -20,7 +20,9 @@ EXTENDS Naturals, Sequences, FiniteSets, TLC, Json
 CONSTANTS MaxNodes, MaxSecs, MaxAlias, MaxArgs, MaxDirs, MaxVars,
           OpHeads,      \* "query:", "query:Q", "mutation:M", "subscription:S" ...
           FragNames,    \* names fragment definitions may take
-          Fields, Conds, Spreads, ArgPool, DirPool, VarPool
+          Fields, Conds, Spreads, ArgPool, DirPool, VarPool,
+          OpenOnly,     \* fields that always get a selection set / never get one (the rest: both ways)
+          LeafOnly
 VARIABLES secs, open, nalias, nargs, ndirs, nvars
 vars == <<secs, open, nalias, nargs, ndirs, nvars>>
 
@@ -54,6 +56,7 @@ AddField ==
   /\ NNodes < MaxNodes
   /\ \E f \in Fields, al \in AliasChoice, as \in ArgChoice, ds \in DirChoice, opens \in BOOLEAN :
        /\ (opens => NNodes + 1 < MaxNodes)            \* an opened selection set needs at least one node
+       /\ (f \in OpenOnly => opens) /\ (f \in LeafOnly => ~opens)
        /\ Append2(Node("field", f, al, "", as, ds, opens))
        /\ open' = IF opens THEN Append(Bump, 0) ELSE Bump
        /\ nalias' = IF al = "" THEN nalias ELSE nalias + 1
